@@ -298,19 +298,22 @@ def gcStop (r : Reg) : Reg := { r with running := false }
 
 /-! ### executable invariant (evaluated by the driver on every dumped state) -/
 
+/-- one slot of the invariant: stored home, support by the predecessor, bounds, and the probe finds this very slot
+    (which gives distinctness of the keys) -/
+def slotOk (c : Cfg) (r : Reg) (i : Nat) (hi : i < r.n) : Bool :=
+  match r.slots[i] with
+  | none => true
+  | some e =>
+    e.home == hashOf c e.key % r.n
+    && (dist r.n i e.home == 0 ||
+        (match r.slots[prev r.n i]'(prev_lt hi) with
+         | none => false
+         | some e' => dist r.n i e.home ≤ dist r.n (prev r.n i) e'.home + 1))
+    && r.minptr ≤ e.key && e.key ≤ r.maxptr
+    && findLoop r.slots e.key r.n (hashOf c e.key % r.n) 0 (Nat.mod_lt _ (Nat.lt_of_le_of_lt (Nat.zero_le _) hi)) == some (some ⟨i, hi⟩)
+
 def invB (c : Cfg) (r : Reg) : Bool :=
-  (List.range r.n).all (fun i =>
-    if hi : i < r.n then
-      match r.slots[i] with
-      | none => true
-      | some e =>
-        e.home == hashOf c e.key % r.n
-        && (dist r.n i e.home == 0 ||
-            (match r.slots[prev r.n i]'(prev_lt hi) with
-             | none => false
-             | some e' => dist r.n i e.home ≤ dist r.n (prev r.n i) e'.home + 1))
-        && r.minptr ≤ e.key && e.key ≤ r.maxptr
-    else true)
+  (List.range r.n).all (fun i => if hi : i < r.n then slotOk c r i hi else true)
   && r.nitems == occ r.slots && (r.n == 0 || r.nitems < r.n)
 
 /-- the parameters of the source as it is now (regenerated from src/GC.c on every run) -/
